@@ -31,9 +31,10 @@ CLAIMS = {
         "technique": "switch coverage, must-assign dataflow after new_reloc_entry, dominance of bounds tests, constant agreement with tables",
     },
     "C06": {
-        "text": "Decides clause C06.a-b only: the per-convention records built by init_call_conv (argument register order, preserved masks, "
-                "stack alignment, red/spill zones, flags) equal the platform ABI oracle, and the 64-bit aliasing of conventions. Does not decide "
-                "argument classification or the parallel-move solver.",
+        "text": "Decides: the per-convention records built by init_call_conv (argument register order, preserved masks, "
+                "stack alignment, red/spill zones, flags) equal the platform ABI oracle, and the 64-bit aliasing of conventions; AArch64 stack "
+                "arguments are aligned exactly when their size reaches the alignment; the x86 argument mover sign-extends exactly the signed "
+                "narrower-source pairs. Does not decide argument classification as a whole or the parallel-move solver.",
         "design_ref": "DESIGN.md section 3 / C06",
         "note": _TB,
         "technique": "AST extraction of constant setter arguments per (arch branch, convention case) compared with an ABI oracle table",
@@ -68,7 +69,7 @@ CLAIMS = {
         "technique": "lock-held must-analysis over CFG + call graph; LLVM IR writable-global audit; const_cast lint",
     },
     "C12": {
-        "text": "Decides table/database agreement: RW/flag/feature/rm tables regenerate byte-identically from db/; AArch64 mnemonics with register-run forms carry the consecutive flag (known finding: tbl/tbx); x86 forms with relative register operands report the run's lead count and follower flags; every operand the x86 rm table flags as replaceable by memory has, for each all-register database form, a memory form of the prescribed size (1162 operand obligations; 31 known findings because the information is kept per instruction id). Does not decide what the CPU reads, writes or requires.",
+        "text": "Decides table/database agreement: RW/flag/feature/rm tables regenerate byte-identically from db/; AArch64 mnemonics with register-run forms carry the consecutive flag (known finding: tbl/tbx); x86 forms with relative register operands report the run's lead count and follower flags; every operand the x86 rm table flags as replaceable by memory has, for each all-register database form, a memory form of the prescribed size (1162 operand obligations; 31 known findings because the information is kept per instruction id); in x86 query_rw_info every success exit of an AVX-512 capable category goes through the {k}/merge-masking step; multi-argument bit masks are built from one enum type. Does not decide what the CPU reads, writes or requires.",
         "design_ref": "DESIGN.md section 3 / C12",
         "note": _TB + " db/*.js readers and tools/tablegen*.js are run under node as the repository's own generator.",
         "technique": "generated-table regeneration diff; table-vs-database agreement",
@@ -82,7 +83,7 @@ CLAIMS = {
         "technique": "regeneration diff, exhaustive decode of dumped name tables, CFG dominance",
     },
     "C14": {
-        "text": "Decides guard/atomicity clauses: label ids validated before dereference; AArch64 register ids validated before packing; emit functions (x86, a64, Builder) reset one-shot state on every exit, commit bytes only on success, never reach an input-validation exit after a fixup/relocation/address-table commit; the shared failure exit resets state before the handler can throw; AArch64 64-bit immediates are range-tested before narrowing and condition codes are bounded by the enum; label-count comparisons are strict; every failing return of an emitter interface function passes through report_error(). Does not decide that every invalid operand kind is rejected, nor operand-indexed table subscripts.",
+        "text": "Decides guard/atomicity clauses: label ids validated before dereference; AArch64 register ids validated before packing; emit functions (x86, a64, Builder) reset one-shot state on every exit, commit bytes only on success, never reach an input-validation exit after a fixup/relocation/address-table commit; the shared failure exit resets state before the handler can throw; AArch64 64-bit immediates are range-tested before narrowing and condition codes are bounded by the enum; label-count comparisons are strict; every failing return of an emitter interface function passes through report_error() (flow-sensitive), one-shot state is reset before the handler runs, a label is validated before the first commit of a multi-step function; constant-table subscripts are bounded for arbitrary operands (38 subscripts, upper-bound evaluator) and the opcode MM field stays inside its table. Does not decide that every invalid operand kind is rejected, nor operand-indexed table subscripts.",
         "design_ref": "DESIGN.md section 3 / C14",
         "note": _TB,
         "technique": "must-set / reachability dataflow on clang CFG, sibling-guard comparison, index-range vs table-length check",
@@ -101,14 +102,14 @@ CLAIMS = {
     },
     "C17": {
         "text": "Decides structural clauses C17.a-d: every success exit of the offset encoders is range-guarded, stores only OR in masked fields, "
-                "OffsetType/value-size dispatch is complete, ADR/ADRP split positions equal the database fields, no 64-bit displacement is narrowed without a dominating range predicate or a round-trip comparison. Does not decide exactness per value.",
+                "OffsetType/value-size dispatch is complete, ADR/ADRP split positions equal the database fields, no 64-bit displacement is narrowed without a dominating range predicate or a round-trip comparison, discarded low bits are tested to be zero before every shift by imm_discard_lsb() (codec and AArch64 direct path). Does not decide exactness per value.",
         "design_ref": "DESIGN.md section 3 / C17",
         "note": _TB,
         "technique": "dominance on CFG, expression-shape rule, switch coverage, database field agreement",
     },
     "C20": {
         "text": "Decides name-table clauses C20.a-c: enumerator-to-text maps equal the enumerator names, x86 register name tables equal the architectural "
-                "names for every (type, id) (exhaustive), the machine-code column is fed from the writer's buffer range. Does not decide operand rendering per value.",
+                "names for every (type, id) (exhaustive), the machine-code column is fed from the writer's buffer range and its hex runs tile the instruction bytes (linear forms), a register is printed with its own type (base/index pairing). Does not decide operand rendering per value.",
         "design_ref": "DESIGN.md section 3 / C20",
         "note": _TB,
         "technique": "constant-evaluated table dump vs oracle; argument provenance",
